@@ -198,7 +198,7 @@ def r4_context_siblings(ck, cx):
         f = cx.method(c, name)
         ck.saw('functions', f.qn)
         rows = set()
-        for p in cx.enum(f, c, max_depth=0):
+        for p in cx.enum(f, c, max_depth=1):
             annotate(p)
             conds = tuple(sorted((U(ev._sub), ev.a) for ev in p.ev if ev.kind == 'cond'))
             for ev in p.ev:
